@@ -12,7 +12,7 @@ import random
 from lib import common, gen, qscen, spec
 
 THEOREMS_TIED = ["C02_kv_scan_complete", "C02_kv_kinds_filter_complete", "C02_kv_authors_filter_complete", "C02_kv_authorkinds_filter_complete",
-                 "C02_kv_ids_filter_complete", "C02_kv_tags_filter_complete", "C02_kv_tags_complete_nosince_reachable", "C02_kv_kinds_complete_reachable",
+                 "C02_kv_ids_filter_complete", "C02_kv_tags_filter_complete", "C02_kv_multi_candidates", "C02_kv_kinds_tags_filter_complete", "C02_kv_tags_complete_nosince_reachable", "C02_kv_kinds_complete_reachable",
                  "C02_kv_authors_complete_reachable", "C02_kv_authorkinds_complete_reachable", "C02_kv_executePlan_complete", "C02_kv_no_duplicates", "C02_sql_complete_partial", "C02_sql_no_duplicates"]
 
 
@@ -148,6 +148,25 @@ def run_case(report, scen, rng, adversarial=False):
         rec2 = scen.ask_sql(fs)
         oracle(report, scen, rec2)
         record(report, rec2)
+    # several ids / authors of stored events, spelled in mixed upper and lower case (every run: the relay must lower-case
+    # *before* it sorts and de-duplicates, or the LMDB scanner gets its match values in the wrong order)
+    for k in range(3):
+        if len(evs) < 2:
+            break
+        field = rng.choice(["ids", "authors"])
+        key = "id" if field == "ids" else "pubkey"
+        pool = sorted({e[key] for e in evs})
+        vals = rng.sample(pool, min(len(pool), rng.choice([2, 3, 4])))
+        flips = [rng.random() < 0.5 for _ in vals]
+        if all(flips) or not any(flips):
+            flips[0] = not flips[0]
+        f = {field: [v.upper() if u else v for v, u in zip(vals, flips)]}
+        if rng.random() < 0.3:
+            f["kinds"] = sorted({e["kind"] for e in evs})[:3]
+        for rec in (scen.ask_kv(f), scen.ask_sql([f])):
+            oracle(report, scen, rec)
+            record(report, rec)
+        report.count("mixed_case_multi_value_filters")
     # multi-filter REQs in both orders (thread view: [{#e: root}, {ids: root}] and reverse)
     for k in range(6):
         fs = [gen.gen_filter(rng, evs, limit_pool=(None, None, None, 5, 100)) for _ in range(rng.choice([2, 2, 3]))]
